@@ -235,6 +235,14 @@ def install(w):
                  for x in args[2:]]
         return Z(sf.all_lift()(ex.to_list(l), *extra))
 
+    @b("wf")
+    def _wf(ex, args, kw, e, env):
+        return Z(ex.w.wf.f(ex.to_py(args[0])))
+
+    @b("wf_exprs")
+    def _wf_exprs(ex, args, kw, e, env):
+        return Z(ex.w.wf.list_fn("expr")(ex.to_list(args[0])))
+
     @b("is_node")
     def _is_node(ex, args, kw, e, env):
         return Z(ex.S.is_node(ex.to_py(args[0])))
@@ -446,30 +454,80 @@ def quant_builtin(ex, args, e, env, is_any):
 
 
 def comprehension_hook(ex, e, g, seq, env):
-    """[self.visit(a) for a in l]  ->  F__list(l) for a visitor with functional contract;
-    [<pure expr of a> ...] for spec functions likewise."""
-    if g.ifs:
-        return None
+    """Comprehension over a symbolic list.
+    [self.visit(a) for a in l] -> F__list(l) for a functional visitor; otherwise a canonical
+    recursive function  comp!<hash>(l, captured…)  whose name is determined by the element (and
+    filter) TERM — code and contract that map the same element expression get the same symbol."""
     elt = e.elt
     tgt = g.target.id
-    if isinstance(elt, ast.Call) and len(elt.args) >= 1 and isinstance(elt.args[0], ast.Name) \
-            and elt.args[0].id == tgt and not elt.keywords:
-        # self.visit(a)
-        if isinstance(elt.func, ast.Attribute) and isinstance(elt.func.value, ast.Name) \
-                and elt.func.value.id == "self" and elt.func.attr == "visit" and len(elt.args) == 1:
-            slf = env.get("self")
-            cc = ex.w.classes.get(slf.cls) if isinstance(slf, Obj) else None
-            if cc is not None:
-                return ex.w.visit_list(ex, slf, cc, seq, getattr(e, "lineno", None))
-        # spec function applied to each element
-        if isinstance(elt.func, ast.Name) and elt.func.id in ex.w.specs:
-            sf = ex.w.specs[elt.func.id]
-            extra = []
-            for x in elt.args[1:]:
-                v = ex.ev(x, env)
-                extra.append(v.t if isinstance(v, Z) and v.t.sort() != ex.S.Py else ex.to_py(v))
-            return Z(sf.list_lift()(seq.t, *extra))
-    return None
+    if not g.ifs and isinstance(elt, ast.Call) and len(elt.args) == 1 \
+            and isinstance(elt.args[0], ast.Name) and elt.args[0].id == tgt and not elt.keywords \
+            and isinstance(elt.func, ast.Attribute) and isinstance(elt.func.value, ast.Name) \
+            and elt.func.value.id == "self" and elt.func.attr == "visit":
+        slf = env.get("self")
+        cc = ex.w.classes.get(slf.cls) if isinstance(slf, Obj) else None
+        if cc is not None:
+            return ex.w.visit_list(ex, slf, cc, seq, getattr(e, "lineno", None))
+    S = ex.S
+    h = z3.Const("h!elt", S.Py)
+    env2 = dict(env)
+    env2[tgt] = Z(h, origin=f"element of {seq.origin or 'list'}")
+    conds = []
+    saved = len(ex.ctx.pc)
+    saved_known = dict(ex.ctx.known)
+    for c in g.ifs:
+        cz = ex.to_bool(ex.ev(c, env2))
+        conds.append(cz)
+        ex.ctx.pc.append(cz)
+        ex.learn(cz)
+    ev = ex.ev(elt, env2)
+    # facts assumed while evaluating the element (safety) stay, guards go
+    extra = ex.ctx.pc[saved:]
+    del ex.ctx.pc[saved:]
+    ex.ctx.known = saved_known
+    cids = {c.get_id() for c in conds}
+    for c in extra:
+        if c.get_id() not in cids:
+            pass    # element-level facts are about the generic element h only: dropped
+    et = ex.to_py(ev)
+    cond = z3.And(conds) if conds else None
+    caps = []
+    seen = set()
+
+    def collect(t):
+        stack = [t]
+        while stack:
+            x = stack.pop()
+            if x.get_id() in seen:
+                continue
+            seen.add(x.get_id())
+            if z3.is_app(x):
+                if x.num_args() == 0 and x.decl().kind() == z3.Z3_OP_UNINTERPRETED \
+                        and not x.eq(h):
+                    caps.append(x)
+                stack.extend(reversed(x.children()))
+    collect(et)
+    if cond is not None:
+        collect(cond)
+    ph = [z3.Const(f"cap!{i}", c.sort()) for i, c in enumerate(caps)]
+    body_e = z3.substitute(et, *list(zip(caps, ph))) if caps else et
+    body_c = (z3.substitute(cond, *list(zip(caps, ph))) if caps else cond) if cond is not None else None
+    key = body_e.sexpr() + "|" + (body_c.sexpr() if body_c is not None else "") + "|" + \
+        ",".join(str(c.sort()) for c in caps)
+    import hashlib
+    name = "comp!" + hashlib.sha1(key.encode()).hexdigest()[:12]
+    if name not in ex.w.defs:
+        gf = z3.Function(name, S.PyList, *[c.sort() for c in caps], S.PyList)
+        l = z3.Const("l!comp", S.PyList)
+        he = z3.substitute(body_e, (h, S.head(l)))
+        rec = gf(S.tail(l), *ph)
+        if body_c is None:
+            step = S.cons(he, rec)
+        else:
+            step = z3.If(z3.substitute(body_c, (h, S.head(l))), S.cons(he, rec), rec)
+        ex.w.defs[name] = (gf, [l] + ph, z3.If(S.is_nil(l), S.nil, step), True)
+    gf = ex.w.defs[name][0]
+    return Z(gf(seq.t, *caps), fresh="shallow", origin="comprehension")
 
 
 def node_to_term(ex, node):
